@@ -315,3 +315,16 @@ Proof.
     + repeat constructor.
   - split; [vm_compute; reflexivity|]. split; reflexivity.
 Qed.
+
+(* NaN scores (finite but overflowing input: inf - inf): the harness codes every NaN as
+   0x7FF8000000000000, above +infinity (0x7FF0000000000000).  On the codes the masked first-index
+   arg-max is numpy's np.argmax after `scores[selected] = -inf`: the FIRST NaN among the unselected
+   wins over +infinity and over every finite score; the code decodes to nan and no threshold test
+   (absolute or relative, binary64) stops on it. *)
+Example C01_nan_order :
+  let nanc := 9221120237041090560 in let infc := 9218868437227405312 in
+  amax (mask [0%nat] [nanc; infc; nanc; nanc; 4607182418800017408]) = Some (2%nat, nanc) /\
+  PrimFloat.is_nan (dec nanc) = true /\
+  match tst_fabs infinity with Some below => below nanc nanc = false | None => False end /\
+  match tst_frel 0.5%float with Some below => below infc nanc = false /\ below nanc infc = false | None => False end.
+Proof. cbv zeta. repeat split; vm_compute; reflexivity. Qed.
